@@ -65,8 +65,38 @@ func ruleBuilders(r *Run, rule string, T types.Type) int {
 			if p, ok := st.Val.(*ssa.Parameter); ok && paramIndex(p) >= 1 {
 				stores = append(stores, st)
 			}
+			// the parameter after an adjustment (`if n > max { n = max }`): a join one of whose operands is the parameter
+			if ph, ok := st.Val.(*ssa.Phi); ok {
+				for _, e := range ph.Edges {
+					if p, ok := e.(*ssa.Parameter); ok && paramIndex(p) >= 1 {
+						stores = append(stores, st)
+						break
+					}
+				}
+			}
 		})
 		if len(stores) == 0 {
+			// a setter that stores nothing drops its option. The pinned tree has a few that do so on purpose (options that
+			// do not apply to the kind); any other one must hand its parameter on somewhere: into a field (possibly after a
+			// conversion, as WithFusionKind does) or to another setter
+			if fn.Signature.Params().Len() > 0 && !noopSetters[tn+"."+m] {
+				handsOn := false
+				allInstrs(fn, func(in ssa.Instruction) {
+					switch x := in.(type) {
+					case *ssa.Store:
+						if fa, ok := x.Addr.(*ssa.FieldAddr); ok && c.S(fa.X) == "P0" {
+							handsOn = true
+						}
+					case *ssa.Call:
+						for _, a := range x.Call.Args {
+							if p, ok := a.(*ssa.Parameter); ok && paramIndex(p) >= 1 {
+								handsOn = true
+							}
+						}
+					}
+				})
+				r.Check(handsOn, rule, "builder:"+tn+"."+m+":keeps", site, "the setter records its option", "the setter neither stores its parameter nor hands it on: the option is silently dropped")
+			}
 			continue
 		}
 		for _, st := range stores {
@@ -162,4 +192,15 @@ func skippedOnlyForNil(fn *ssa.Function, st *ssa.Store) bool {
 		}
 	}
 	return true
+}
+
+// noopSetters: options the pinned tree ignores on purpose for a kind (confirmed by reading: the option has no meaning there).
+var noopSetters = map[string]bool{
+	"flatIndexSearch.WithEfSearch":  true, // exhaustive scan: no beam
+	"flatIndexSearch.WithNProbes":   true, // no clusters
+	"hnswIndexSearch.WithNProbes":   true, // no clusters
+	"ivfIndexSearch.WithEfSearch":   true, // no graph
+	"ivfpqIndexSearch.WithEfSearch": true, // no graph
+	"pqIndexSearch.WithEfSearch":    true, // no graph
+	"pqIndexSearch.WithNProbes":     true, // no clusters
 }
